@@ -99,7 +99,7 @@ MatchRecv(t, s, r, res) ==
 \* The choice is resolved deterministically from the observation (first matching in a fixed order), so
 \* that every trace line has at most one successor and a rejection is a property of the trace, not of a
 \* branch of the search.
-ChoiceOrder == <<"good", "bad", "rlfail", "skip", "part">>
+ChoiceOrder == <<"good", "bad", "rlfail", "skip", "part", "encfail">>
 
 TDeliver ==
     /\ IsEvent({"deliver"})
@@ -112,7 +112,7 @@ TDeliver ==
            c == CfgOf(t, s)
            Res(ch) == IF Live(s) THEN Recv(s, r, c, ch) ELSE RecvDead(s)
            allowed == IF Live(s) THEN AllowedChoices(s, r) ELSE {"good"}
-           matching == {i \in 1..5 : ChoiceOrder[i] \in allowed /\ MatchRecv(t, s, r, Res(ChoiceOrder[i]))}
+           matching == {i \in 1..6 : ChoiceOrder[i] \in allowed /\ MatchRecv(t, s, r, Res(ChoiceOrder[i]))}
        IN /\ matching # {}
           /\ LET first == CHOOSE i \in matching : \A j \in matching : i <= j
              IN sess' = [sess EXCEPT ![e] = Res(ChoiceOrder[first]).next]
@@ -179,7 +179,7 @@ TFlush ==
     /\ UNCHANGED sess
 
 TSkip ==
-    /\ IsEvent({"keys", "clock", "mark", "skip"})
+    /\ IsEvent({"keys", "clock", "mark", "skip", "tamper"})
     /\ UNCHANGED sess
 
 TraceInit == l = 1 /\ sess = [x \in {} |-> 0]
